@@ -1,3 +1,4 @@
 /- Props/C15.lean — property C15: all theorems live in namespace CM.Props.C15, split over two files. -/
+import CircuitProofs.Props.C15Tie
 import CircuitProofs.Props.C15Snapshot
 import CircuitProofs.Props.C15Percentile
